@@ -154,9 +154,8 @@ class IntervalTier(textgrid_tier.TextgridTier):
         )
 
         if rebaseToZero is True:
-            newSmallestValue = newEntryList[0][0]
-            if newSmallestValue < cropStart:
-                timeDiff = newSmallestValue
+            if len(newEntryList) > 0 and newEntryList[0][0] < cropStart:
+                timeDiff = newEntryList[0][0]
             else:
                 timeDiff = cropStart
             newEntryList = [
